@@ -90,8 +90,19 @@ def _matches(val, m, done):
             if a[1] == "done":
                 if v != done:
                     return False
+            elif a[1] in m:
+                # the truth of a bound is whether it is non-zero (that a bound of 0 is legal is exactly what the tables are about)
+                if v != (m[a[1]] != 0):
+                    return False
+            elif a[1].startswith("self.") and (a[1] + ".value") in m:
+                # a constraint object that is given is there (OPT-TRUTH decides that its class has no truth value of its own)
+                if v is not True:
+                    return False
             else:
                 return None
+        elif a[0] == "is" and "None" in a[1:] and any(t != "None" and t.startswith("self.") and ((t + ".value") in m or t in m) for t in a[1:]):
+            if v is not False:
+                return False
         else:
             return None
     return True
